@@ -116,33 +116,76 @@ TRIGGERS = {
     "mixed_arm_composite": [(4, ("mixed", V(0), ("cross", V(1), V(2)), V(3))), (4, ("mixed", ("cross", V(1), V(2)), V(0), V(3)))],
     "mixed_arm_term": [(3, ("mixed", V(0), V(1), V(2))), (3, ("mixed", ("vadd", V(0), V(1)), V(1), V(2)))],
     "norm_scale": [(1, ("norm", ("vscale", ("int", -3), V(0)))), (1, ("norm", ("vscale", ("ssym", 0), V(0)))),
-        (2, ("norm", ("vadd", ("vscale", ("int", 2), V(0)), ("vscale", ("int", 2), V(1)))))],
+        (2, ("norm", ("vadd", ("vscale", ("int", 2), V(0)), ("vscale", ("int", 2), V(1))))),
+        (2, ("norm", ("vadd", ("vscale", ("sdiv", ("int", 1), ("ssym", 0)), V(0)), ("vscale", ("sdiv", ("int", 1), ("ssym", 0)), V(1)))))],
 }
+# recipes whose composite operand must sit between two symbols in id() order: (p, q, x, y) roles for vx.Objs(spread=...)
+SPREAD_TRIGGERS = {
+    "mixed_arm_composite": [(4, ("mixed", V(0), ("cross", V(1), V(2)), V(3)), (1, 2, 0, 3)),
+        (4, ("mixed", ("cross", V(1), V(2)), V(0), V(3)), (1, 2, 0, 3)), (4, ("mixed", V(0), V(3), ("cross", V(1), V(2))), (1, 2, 0, 3))],
+}
+SPREAD_TRIGGERS["mixed_arm_term"] = SPREAD_TRIGGERS["mixed_arm_composite"]
 P = ("par",)
+# which operands of a mixed product depend on the parameter: every non-empty pattern, through vector functions
+def _mixed_dependence():
+    out = []
+    for dep in itertools.product([False, True], repeat=3):
+        if not any(dep):
+            continue
+        nsym = 0
+        ops = []
+        for i in range(3):
+            if dep[i]:
+                ops.append(("vfun", i))
+            else:
+                ops.append(V(nsym))
+                nsym += 1
+        out.append(tuple(ops))
+    return out
+
+
+MIXED_DEPENDENCE = _mixed_dependence()
+F = lambda i: ("vfun", i)
 DIFF_TRIGGERS = {
-    "diff_dot": [(2, ("dot", ("vscale", P, V(0)), ("vadd", V(1), ("vscale", ("smul", P, P), V(0)))))],
-    "diff_cross": [(2, ("cross", ("vscale", P, V(0)), ("vadd", V(1), ("vscale", ("smul", P, P), V(0)))))],
-    "diff_mixed": [(3, ("mixed", ("vscale", P, V(0)), ("vadd", V(1), ("vscale", P, V(2))), V(2)))],
-    "diff_norm": [(2, ("smul", P, ("norm", ("vadd", V(0), V(1)))))],
+    "diff_dot": [(2, ("dot", ("vscale", P, V(0)), ("vadd", V(1), ("vscale", ("smul", P, P), V(0))))), (1, ("dot", F(0), V(0))),
+        (1, ("dot", V(0), F(0))), (1, ("dot", F(0), F(1))), (1, ("dot", F(0), F(0)))],
+    "diff_cross": [(2, ("cross", ("vscale", P, V(0)), ("vadd", V(1), ("vscale", ("smul", P, P), V(0))))), (1, ("cross", F(0), V(0))),
+        (1, ("cross", V(0), F(0))), (1, ("cross", F(0), F(1)))],
+    "diff_mixed": [(3, ("mixed", ("vscale", P, V(0)), ("vadd", V(1), ("vscale", P, V(2))), V(2)))] +
+        [(2, ("mixed", *ops)) for ops in MIXED_DEPENDENCE],
+    "diff_norm": [(2, ("smul", P, ("norm", ("vadd", V(0), V(1))))), (1, ("norm", F(0))), (1, ("norm", ("vadd", F(0), V(0))))],
+}
+STAGE_RULES = {
+    "VectorCross._eval_vector_dot": ["dot_cross_cross", "dot_cross_any", "dot_any_cross"],
+    "VectorCross._eval_vector_cross": ["cross_cross_cross", "cross_cross_any", "cross_any_cross"],
+    "VectorDot.__new__": ["dot_arm_repeated", "dot_arm_term"],
+    "VectorCross.__new__": ["cross_arm_term"],
+    "VectorMixedProduct.__new__": ["mixed_arm_composite", "mixed_arm_term"],
+    "VectorNorm.__new__": ["norm_scale"],
+    "_eval_derivative": ["diff_dot", "diff_cross", "diff_mixed", "diff_norm"],
 }
 
 
 def search_rule(ctx, name):
     """Drive the real constructors into the rule under every identity order; first numeric mismatch."""
-    trig = TRIGGERS.get(name) or DIFF_TRIGGERS.get(name) or []
+    trig = [(nv, rec, None) for nv, rec in (TRIGGERS.get(name) or DIFF_TRIGGERS.get(name) or [])]
+    trig += [(nv, rec, sp) for nv, rec, sp in SPREAD_TRIGGERS.get(name, []) for _ in range(6)]
     modes = ["diff"] if name in DIFF_TRIGGERS else ["auto", "doit"]
     tried = 0
-    for nv, rec in trig:
-        for rank in all_ranks(nv, ctx.rng, 24):
+    for nv, rec, spread in trig:
+        for rank in ([None] if spread else all_ranks(nv, ctx.rng, 24)):
             for mode in modes:
-                envs = [vtree.rand_env(ctx.rng, nv, 2).to_json() for _ in range(6)]
-                r = vtree.process({"recipe": rec, "nv": nv, "ns": 2, "mode": mode, "rank": rank, "envs": envs})
+                envs = [vtree.rand_env(ctx.rng, nv, 2, 3).to_json() for _ in range(6)]
+                job = {"recipe": rec, "nv": nv, "ns": 2, "nf": 3, "mode": mode, "rank": rank, "envs": envs}
+                if spread:
+                    job.update(spread=spread, spread_seed=ctx.rng.randrange(10**6))
+                r = vtree.process(job)
                 tried += 1
                 if r["status"] == "ok" and r["mismatch"]:
-                    return tried, {"recipe": rec, "shown": vx.show_recipe(rec), "nv": nv, "ns": 2, "mode": mode, "rank": rank,
-                        "output": r["out_str"], **r["mismatch"]}
+                    return tried, {"recipe": rec, "shown": vx.show_recipe(rec), "nv": nv, "ns": 2, "nf": 3, "mode": mode, "rank": rank,
+                        "spread": job.get("spread"), "spread_seed": job.get("spread_seed"), "output": r["out_str"], **r["mismatch"]}
                 if r["status"] in ("recursion", "exception"):
-                    return tried, {"recipe": rec, "shown": vx.show_recipe(rec), "nv": nv, "ns": 2, "mode": mode, "rank": rank,
+                    return tried, {"recipe": rec, "shown": vx.show_recipe(rec), "nv": nv, "ns": 2, "nf": 3, "mode": mode, "rank": rank,
                         "output": r.get("error") or f"RecursionError through {r.get('cycle')}", "env": None,
                         "expected": "a value", "observed": r["status"]}
     return tried, None
@@ -152,8 +195,17 @@ def layer1(ctx):
     tr = vrules.translate(REPO / SRC)
     ctx.coverage["rules_translated"] = [f"{r.name} @ {r.where}: {r.source}" for r in tr.rules]
     for stage, msg in tr.broken:
-        ctx.violation(f"C14:translator:{stage}", f"the rule translator no longer understands {stage}: {msg}",
-            {"kind": "broken-tie", "theorem_or_tie": f"vp/vrules.py on {SRC}", "stage": stage, "message": msg}, found_input=False)
+        rep = {"kind": "broken-tie", "theorem_or_tie": f"vp/vrules.py on {SRC}", "stage": stage, "message": msg}
+        hit = None
+        for name in STAGE_RULES.get(stage.replace("ruleset field ", ""), []):
+            _tried, hit = search_rule(ctx, name)
+            if hit:
+                break
+        if hit:
+            ctx.violation(f"C14:translator:{stage}", f"{stage} no longer has the expected shape ({msg}) and {hit['shown']} evaluates to "
+                f"{hit['observed']} instead of {hit['expected']}", {**rep, **hit, "kind": "rule"}, True)
+        else:
+            ctx.violation(f"C14:translator:{stage}", f"the rule translator no longer understands {stage}: {msg}", rep, found_input=False)
     lemmas = [coqrun.Lemma(f"rule_{r.name}", r.statement(), r.proof, r.where) for r in tr.rules]
     res = coqrun.prove_lemmas(ctx, "rules", PRE_RULES, lemmas, per_file=1, timeout=300)
     failed = [r for r in tr.rules if res.get(f"rule_{r.name}") != "ok"]
@@ -362,8 +414,17 @@ def gen_norm_arg(rng, nv, ns):
     else:
         k = rng.choice([-2, 2, 3])
         x = ("vadd", ("vscale", ("int", k), atom()), ("vscale", ("int", k), atom()))
-    if rng.random() < 0.5:
+    r2 = rng.random()
+    if r2 < 0.4:
         x = ("vscale", gen_scale_factor(rng, ns), x)
+    elif r2 < 0.6:
+        # a common (possibly negative) scalar denominator: |1/d| must come out of the norm
+        d = rng.choice([("ssym", rng.randrange(ns)), ("smul", ("int", rng.choice([2, 3])), ("ssym", rng.randrange(ns)))])
+        num = lambda: ("int", rng.choice([1, 1, 2, 3]))
+        if x[0] == "vadd" and rng.random() < 0.7:
+            x = ("vadd", ("vscale", ("sdiv", num(), d), x[1]), ("vscale", ("sdiv", num(), d), x[2]))
+        else:
+            x = ("vscale", ("sdiv", num(), d), x)
     return x
 
 
@@ -401,10 +462,12 @@ def gen_tree(rng, nf=0, par=False, max_size=22):
 
 
 def tv_key(mode, rec, rank):
-    return f"C14:tv:{mode}:{vx.show_recipe(rec)}:ids{''.join(map(str, rank))}"
+    return f"C14:tv:{mode}:{vx.show_recipe(rec)}:ids{''.join(map(str, rank)) if rank else 'spread'}"
 
 
 def classify_recursion(cycle):
+    if "VectorDerivative._eval_derivative" in cycle:
+        return "second_derivative"
     if "VectorMixedProduct._eval_derivative" in cycle and not any("__new__" in c for c in cycle):
         return "mixed_derivative"
     if "VectorDerivative.__new__" in cycle:
@@ -437,14 +500,32 @@ def layer3(ctx, failed_rules):
             jobs_by_seed[seed].append(job)
             meta[jid] = job
             jid += 1
+    # products with a composite operand, built so that the composite object lies between two symbols in id() order
+    n_spread = 0
+    for rep_i in range(ctx.pick(3, 12)):
+        for nv, rec, roles in SPREAD_TRIGGERS["mixed_arm_composite"] + [
+                (4, ("mixed", V(0), ("vscale", ("ssym", 0), ("cross", V(1), V(2))), ("vadd", V(3), V(0))), (1, 2, 0, 3)),
+                (4, ("dot", V(0), ("cross", ("cross", V(1), V(2)), V(3))), (1, 2, 0, 3)),
+                (4, ("mixed", ("vadd", V(0), V(3)), ("vadd", ("cross", V(1), V(2)), V(3)), V(3)), (1, 2, 0, 3))]:
+            job = {"id": jid, "recipe": rec, "nv": nv, "ns": 2, "mode": rng.choice(["auto", "doit"]), "rank": None, "spread": roles,
+                "spread_seed": rng.randrange(10**6), "envs": [vtree.rand_env(rng, nv, 2).to_json() for _ in range(4)]}
+            jobs_by_seed[None].append(job)
+            meta[jid] = job
+            distinct.add(rec)
+            jid += 1
+            n_spread += 1
     results = {}
-    ctx.log(f"{jid} builds of {ntrees} recipes")
+    ctx.log(f"{jid} builds of {ntrees} recipes (+{n_spread} with a composite operand placed between symbols)")
     for s, jobs in jobs_by_seed.items():
         for chunk in range(0, len(jobs), 400):
             for r in run_jobs(jobs[chunk:chunk + 400], s):
                 r["hashseed"] = 0 if s is None else s
                 results[r["id"]] = r
     decide_trees(ctx, meta, results, failed_rules, "tv", hist_tags, hist_depth, len(distinct))
+    ctx.coverage["streams"]["tv"]["builds_with_composite_operand_in_the_middle_of_the_id_order"] = sum(
+        1 for r in results.values() if "mixed_composite_middle" in (r.get("fired") or []))
+    ctx.coverage["streams"]["tv"]["builds_with_composite_operand_first_or_last"] = sum(
+        1 for r in results.values() if "mixed_composite_other" in (r.get("fired") or []))
 
 
 def decide_trees(ctx, meta, results, failed_rules, stream, hist_tags, hist_depth, ndistinct):
@@ -472,12 +553,14 @@ def decide_trees(ctx, meta, results, failed_rules, stream, hist_tags, hist_depth
         job = meta[jid]
         rec = vtree.totuple(job["recipe"])
         base = {"kind": "tree", "stream": stream, "recipe": job["recipe"], "shown": vx.show_recipe(rec), "nv": job["nv"], "ns": job["ns"],
-            "nf": job.get("nf", 0), "mode": job["mode"], "rank": job["rank"], "hashseed": r.get("hashseed", 0), "fired": r.get("fired"),
+            "nf": job.get("nf", 0), "mode": job["mode"], "rank": job["rank"], "spread": job.get("spread"), "spread_seed": job.get("spread_seed"),
+            "twice_form": job.get("twice_form"), "hashseed": r.get("hashseed", 0), "fired": r.get("fired"),
             "output": r.get("out_str")}
         if r["status"] == "recursion":
             cls = classify_recursion(r["cycle"])
-            ctx.violation(f"C14:diff:nontermination:{cls}" if job["mode"] == "diff" else f"C14:nontermination:{cls}",
-                f"{'differentiating' if job['mode'] == 'diff' else 'building'} {vx.show_recipe(rec)} does not terminate "
+            ctx.violation(f"C14:diff:nontermination:{cls}" if job["mode"].startswith("diff") else f"C14:nontermination:{cls}",
+                f"{'differentiating' + (' twice' if job['mode'] == 'diff2' else '') if job['mode'].startswith('diff') else 'building'} "
+                f"{vx.show_recipe(rec)} does not terminate "
                 f"(RecursionError through {', '.join(r['cycle'])})", {**base, "observed": "RecursionError", "cycle": r["cycle"],
                 "expected": "a value", "theorem_or_tie": "termination of the constructors / of .diff()"}, True)
             continue
@@ -513,7 +596,7 @@ def decide_trees(ctx, meta, results, failed_rules, stream, hist_tags, hist_depth
                 # with the reported rule repaired, the same tree runs into the (separately reported) non-termination
                 cls = classify_recursion(r2["cycle"])
                 attributed += 1
-                ctx.violation(f"C14:diff:nontermination:{cls}" if job["mode"] == "diff" else f"C14:nontermination:{cls}",
+                ctx.violation(f"C14:diff:nontermination:{cls}" if job["mode"].startswith("diff") else f"C14:nontermination:{cls}",
                     f"{vx.show_recipe(rec)} does not terminate (RecursionError through {', '.join(r2['cycle'])})",
                     {**base, "observed": "RecursionError", "cycle": r2["cycle"], "expected": "a value"}, True)
                 continue
@@ -565,7 +648,7 @@ def embed(r) -> str:
     if t == "vsym":
         return f"(PSym v{r[1]})"
     if t == "vfun":
-        return f"(PFun (fun _ => f{r[1]}) (fun _ => df{r[1]}))"
+        return f"(PFun (fun n _ => match n with O => f{r[1]} | S O => df{r[1]} | _ => ddf{r[1]} end) 0)"
     if t == "vzero":
         return "(PSym vzero)"
     if t == "vadd":
@@ -603,12 +686,14 @@ def diff_spec_lemmas(ctx, meta):
     for jid, job in meta.items():
         rec = vtree.totuple(job["recipe"])
         atoms = {"v": set(range(job["nv"])), "s": set(range(job["ns"])), "f": set(range(job.get("nf", 0))), "par": True}
+        twice = job["mode"] == "diff2"
+        spec = vx.diff_recipe(vx.diff_recipe(rec)) if twice else vx.diff_recipe(rec)
         if vx.is_vec(rec):
-            lhs = f"pval_v (Dv {embed(rec)}) t"
+            lhs = f"pval_v (Dv (Dv {embed(rec)})) t" if twice else f"pval_v (Dv {embed(rec)}) t"
         else:
-            lhs = f"pval_s (Ds {embed(rec)}) t"
-        lemmas.append(coqrun.Lemma(f"dspec_{jid}", f"forall {vx.binder(atoms)}, {lhs} = {vx.coq_of_recipe(vx.diff_recipe(rec))}",
-            "intros. cbn [pval_s pval_v Ds Dv]. timeout 60 v3_finish.", vx.show_recipe(rec)))
+            lhs = f"pval_s (Ds (Ds {embed(rec)})) t" if twice else f"pval_s (Ds {embed(rec)}) t"
+        lemmas.append(coqrun.Lemma(f"dspec_{jid}", f"forall {vx.binder(atoms)}, {lhs} = {vx.coq_of_recipe(spec)}",
+            "intros. cbn [pval_s pval_v Ds Dv]. cbv beta iota. timeout 60 v3_finish.", vx.show_recipe(rec)))
     res = coqrun.prove_lemmas(ctx, "dspec", DSPEC_PREAMBLE, lemmas, per_file=20, timeout=600)
     ok = sum(v == "ok" for v in res.values())
     ctx.obligations(len(lemmas), ok)
@@ -639,10 +724,32 @@ def layer_diff(ctx, failed_rules):
         job = {"id": jid, "recipe": rec, "nv": nv, "ns": ns, "nf": nf, "mode": "diff", "rank": all_ranks(nv, rng, 1)[0], "envs": envs}
         jobs.append(job)
         meta[jid] = job
+    jid = n
+    # every pattern of which operands of a product depend on the parameter (through vector functions), and second derivatives
+    fam = [("mixed", *ops) for ops in MIXED_DEPENDENCE] + [("dot", ops[0], ("cross", ops[1], ops[2])) for ops in MIXED_DEPENDENCE]
+    fam += [("dot", F(0), V(0)), ("dot", F(0), F(1)), ("cross", F(0), V(0)), ("cross", F(0), F(1)), ("cross", V(0), ("cross", F(0), V(1))),
+        ("vscale", P, F(0)), ("dot", F(0), ("vscale", P, V(0))), ("mixed", F(0), ("vadd", F(1), V(0)), ("vscale", P, V(1)))]
+    for rec in fam:
+        for mode in ("diff", "diff2"):
+            job = {"id": jid, "recipe": rec, "nv": 2, "ns": 2, "nf": 3, "mode": mode, "rank": all_ranks(2, rng, 1)[0],
+                "twice_form": rng.choice(["nested", "order2"]), "envs": [vtree.rand_env(rng, 2, 2, 3).to_json() for _ in range(4)]}
+            jobs.append(job)
+            meta[jid] = job
+            distinct.add((mode, rec))
+            jid += 1
+    for rec in [F(0), ("vscale", ("smul", P, P), F(0)), ("vadd", F(0), ("vscale", P, V(0)))]:
+        for form in ("nested", "order2"):
+            job = {"id": jid, "recipe": rec, "nv": 2, "ns": 2, "nf": 3, "mode": "diff2", "rank": [0, 1], "twice_form": form,
+                "envs": [vtree.rand_env(rng, 2, 2, 3).to_json() for _ in range(4)]}
+            jobs.append(job)
+            meta[jid] = job
+            distinct.add(("diff2", form, rec))
+            jid += 1
     results = {r["id"]: r for r in run_jobs(jobs)}
     for r in results.values():
         r["hashseed"] = 0
     decide_trees(ctx, meta, results, failed_rules, "diff", hist_tags, hist_depth, len(distinct))
+    ctx.coverage["streams"]["diff"]["second_derivative_builds"] = sum(1 for j in meta.values() if j["mode"] == "diff2")
     diff_spec_lemmas(ctx, meta)
 
 
